@@ -72,5 +72,4 @@ func smoke() int {
 	return 0
 }
 
-func (vn *vnode) stress(s *StressSpec) *StressResult { return nil }
 func signerChildMain(args []string)                 {}
